@@ -13,7 +13,7 @@ import re
 from typing import Any, Callable, Dict, Iterator, List, Optional, Sequence, Set, Tuple
 
 from . import pyfacts as pf
-from .common import AnalysisError, norm, read_repo, repo_path
+from .common import AnalysisError, AnchorRemoved, norm, read_repo, repo_path
 from .sqlast import N, Parser, SqlParseError, parse_routine, parse_statements, text, tokenize
 
 # --------------------------------------------------------------------------------------
@@ -157,14 +157,18 @@ class Routine:
 
 
 class SqlProgram:
-    def __init__(self, routines: Dict[str, Routine], scripts: List[str], py_migrations: List[str], tables: Dict[str, List[str]]):
+    def __init__(self, routines: Dict[str, Routine], scripts: List[str], py_migrations: List[str], tables: Dict[str, List[str]], dropped: Optional[Dict[str, str]] = None):
         self.routines = routines
+        self.dropped = dropped or {}
         self.scripts = scripts
         self.py_migrations = py_migrations
         self.tables = tables
 
     def routine(self, name: str) -> Routine:
         if name not in self.routines:
+            if name in self.dropped:
+                raise AnchorRemoved(f'{self.dropped[name]}::DROP {name}', f'{name} is dropped by migration {self.dropped[name]} and not re-created by it or any later migration: '
+                                    f'everything {name} maintained stops being maintained', self.dropped[name], 0)
             raise AnalysisError(f'anchor vanished: no effective SQL routine named {name}')
         return self.routines[name]
 
@@ -186,6 +190,7 @@ def load_program(database: str = 'batch', sql_dir: str = 'batch/sql') -> SqlProg
         return _prog_cache[database]
     scripts = migration_list(database)
     routines: Dict[str, Routine] = {}
+    dropped: Dict[str, str] = {}
     py_migs: List[str] = []
     tables: Dict[str, List[str]] = {}
     for s in scripts:
@@ -225,8 +230,10 @@ def load_program(database: str = 'batch', sql_dir: str = 'batch/sql') -> SqlProg
             if m:
                 verb, kind, name = m.group(1).upper(), m.group(2).lower(), m.group(3)
                 if verb == 'DROP':
-                    routines.pop(name, None)
+                    if routines.pop(name, None) is not None:
+                        dropped[name] = rel
                 else:
+                    dropped.pop(name, None)
                     pos = src.find(body[:200])
                     line = src[:pos].count('\n') + 1 if pos >= 0 else 1
                     routines[name] = Routine(name, kind, rel, body, line)
@@ -248,7 +255,7 @@ def load_program(database: str = 'batch', sql_dir: str = 'batch/sql') -> SqlProg
                 for mm in re.finditer(r'DROP\s+COLUMN\s+`?([A-Za-z_0-9]+)`?', body, re.I):
                     if mm.group(1) in tables[m5.group(1)]:
                         tables[m5.group(1)].remove(mm.group(1))
-    prog = SqlProgram(routines, scripts, py_migs, tables)
+    prog = SqlProgram(routines, scripts, py_migs, tables, dropped)
     _prog_cache[database] = prog
     return prog
 
